@@ -136,6 +136,36 @@ func (v GVal) Go() any {
 		return out
 	case "int64s":
 		return append([]int64{}, v.Ints...)
+	case "int8s":
+		out := []int8{}
+		for _, i := range v.Ints {
+			out = append(out, int8(i))
+		}
+		return out
+	case "int16s":
+		out := []int16{}
+		for _, i := range v.Ints {
+			out = append(out, int16(i))
+		}
+		return out
+	case "int32s":
+		out := []int32{}
+		for _, i := range v.Ints {
+			out = append(out, int32(i))
+		}
+		return out
+	case "uints":
+		out := []uint{}
+		for _, u := range v.Uints {
+			out = append(out, uint(u))
+		}
+		return out
+	case "uint32s":
+		out := []uint32{}
+		for _, u := range v.Uints {
+			out = append(out, uint32(u))
+		}
+		return out
 	case "uint64s":
 		return append([]uint64{}, v.Uints...)
 	case "uint16s":
@@ -203,9 +233,9 @@ func (v GVal) Coq() string {
 		return "(VStrs " + strs(v.Strs) + ")"
 	case "bools":
 		return "(VBools " + cBools(v.Bools) + ")"
-	case "ints", "int64s":
+	case "ints", "int64s", "int8s", "int16s", "int32s": // (the narrow kinds are generated within their range)
 		return "(VInts " + cZs(v.Ints) + ")"
-	case "uint64s", "uint16s":
+	case "uint64s", "uint16s", "uints", "uint32s":
 		var it []string
 		for _, u := range v.Uints {
 			if v.Kind == "uint16s" {
@@ -359,7 +389,7 @@ func typedAttr(key string, v GVal) slog.Attr {
 // ---- generator ----
 var leafKinds = []string{"nil", "string", "stringer", "level", "error", "bool", "int", "int8", "int16", "int32", "int64",
 	"uint", "uint8", "uint16", "uint32", "uint64", "float32", "float64", "complex64", "complex128", "duration", "time",
-	"bytes", "struct", "map", "strs", "bools", "ints", "int64s", "uint64s", "uint16s", "float64s", "durs", "times"}
+	"bytes", "struct", "map", "strs", "bools", "ints", "int64s", "uint64s", "uint16s", "float64s", "durs", "times", "int8s", "int16s", "int32s", "uints", "uint32s"}
 
 var nastyRunes = []rune{0, 1, 7, 8, 9, 10, 11, 12, 13, 27, 31, ' ', '"', '\\', '/', '<', '>', '&', '=', 'a', 'Z', '~', 127, 0x80, 0xa0, 0xad,
 	0xe9, 0x378, 0x2028, 0x2029, 0xd7ff, 0xe000, 0xfffd, 0xfffe, 0xffff, 0x10000, 0x1f600, 0x10ffff}
@@ -476,6 +506,14 @@ func genLeaf(r *Rng, p EncProfile, kind string) GVal {
 	case "bools":
 		for n := r.Intn(4); n > 0; n-- {
 			v.Bools = append(v.Bools, r.Bool())
+		}
+	case "int8s", "int16s", "int32s":
+		for n := r.Intn(4); n > 0; n-- {
+			v.Ints = append(v.Ints, []int64{0, 1, -1, 127, -128, 7, -100}[r.Intn(7)])
+		}
+	case "uints", "uint32s":
+		for n := r.Intn(4); n > 0; n-- {
+			v.Uints = append(v.Uints, []uint64{0, 1, 65535, 1<<32 - 1}[r.Intn(4)])
 		}
 	case "ints", "int64s", "durs", "times":
 		for n := r.Intn(4); n > 0; n-- {
